@@ -12,4 +12,5 @@ CHECKS = {
     "C15": textfam.check_c15,
     "C16": enginefam.check_c16,
     "C18": tablefam.check,
+    "C19": textfam.check_c19,
 }
